@@ -100,6 +100,63 @@ class SwapIfElse(ast.NodeTransformer):
         return node
 
 
+class CommuteMult(ast.NodeTransformer):
+    """a * b -> b * a  (exactly commutative for python/numpy/jax numbers and arrays and for NIFTy's point-wise products);
+    operands that are string/list/tuple displays are left alone"""
+
+    def __init__(self):
+        self.count = 0
+
+    def visit_BinOp(self, node):
+        self.generic_visit(node)
+        if isinstance(node.op, ast.Mult) and not any(isinstance(x, (ast.List, ast.Tuple, ast.JoinedStr)) or
+                                                     (isinstance(x, ast.Constant) and isinstance(x.value, (str, bytes))) for x in (node.left, node.right)):
+            self.count += 1
+            return ast.copy_location(ast.BinOp(left=node.right, op=ast.Mult(), right=node.left), node)
+        return node
+
+
+class FlipCompare(ast.NodeTransformer):
+    """a < b -> b > a, a <= b -> b >= a, a == b -> b == a, a != b -> b != a  (single comparisons only)"""
+    MAP = {ast.Lt: ast.Gt, ast.Gt: ast.Lt, ast.LtE: ast.GtE, ast.GtE: ast.LtE, ast.Eq: ast.Eq, ast.NotEq: ast.NotEq}
+
+    def __init__(self):
+        self.count = 0
+
+    def visit_Compare(self, node):
+        self.generic_visit(node)
+        if len(node.ops) == 1 and type(node.ops[0]) in self.MAP:
+            self.count += 1
+            return ast.copy_location(ast.Compare(left=node.comparators[0], ops=[self.MAP[type(node.ops[0])]()], comparators=[node.left]), node)
+        return node
+
+
+class HoistDivisor(ast.NodeTransformer):
+    """x = a / b  ->  _hd = b; x = a / _hd   for plain assignments at function level (introduces a temporary, nothing else)"""
+
+    def __init__(self):
+        self.count = 0
+
+    def _body(self, stmts):
+        out = []
+        for st in stmts:
+            if isinstance(st, ast.Assign) and len(st.targets) == 1 and isinstance(st.targets[0], ast.Name) and isinstance(st.value, ast.BinOp) \
+                    and isinstance(st.value.op, ast.Div) and not isinstance(st.value.right, (ast.Constant, ast.Name)):
+                self.count += 1
+                tmp = f"_hd{self.count}"
+                out.append(ast.copy_location(ast.Assign(targets=[ast.Name(id=tmp, ctx=ast.Store())], value=st.value.right), st))
+                out.append(ast.copy_location(ast.Assign(targets=st.targets, value=ast.BinOp(left=st.value.left, op=ast.Div(),
+                                                                                             right=ast.Name(id=tmp, ctx=ast.Load()))), st))
+            else:
+                out.append(st)
+        return out
+
+    def visit_FunctionDef(self, node):
+        self.generic_visit(node)
+        node.body = self._body(node.body)
+        return node
+
+
 def transformed_sources(relpaths, transformer_factory, repo=None):
     repo = repo or REPO
     out = {}
@@ -127,7 +184,8 @@ def run_selftests(ctx, repo=None):
     report = {"silence": [], "must_fire": [], "files": len(consulted)}
     base_viol = {(o.rule, o.key) for o in ctx.obs if o.verdict == "violated"}
     # ---- silence variants
-    for label, fac in (("ast-roundtrip", lambda: None), ("alpha-rename-locals", AlphaRename), ("swap-if-else", SwapIfElse)):
+    for label, fac in (("ast-roundtrip", lambda: None), ("alpha-rename-locals", AlphaRename), ("swap-if-else", SwapIfElse),
+                       ("commute-mult", CommuteMult), ("hoist-divisor", HoistDivisor), ("flip-compare", FlipCompare)):
         try:
             srcs, n = transformed_sources(consulted, fac, repo)
         except SyntaxError as e:
